@@ -558,7 +558,9 @@ where
             st.evals += 1;
         }
         let _limit = deadline(CASE_LIMIT_SECS, property, kind, &case, &format!("a case did not finish within {CASE_LIMIT_SECS} s (stuck inside the code under test, or an overloaded machine)"), false);
+        crate::clock::reset();
         let r = std::panic::catch_unwind(std::panic::AssertUnwindSafe(|| f(&case, &mut st)));
+        crate::clock::reset();
         match r {
             Ok(Ok(())) => Ok(()),
             Ok(Err(Fail::Inconclusive(m))) => {
@@ -654,7 +656,9 @@ where
         }
         st.evals += 1;
         let _limit = deadline(CASE_LIMIT_SECS, property, kind, case, &format!("a case did not finish within {CASE_LIMIT_SECS} s (stuck inside the code under test, or an overloaded machine)"), false);
+        crate::clock::reset();
         let r = std::panic::catch_unwind(std::panic::AssertUnwindSafe(|| f(case, &mut st)));
+        crate::clock::reset();
         drop(_limit);
         let msg = match r {
             Ok(Ok(())) => None,
